@@ -185,7 +185,15 @@ func VerifHarness_C16_calls() {
 	// (distinct key: the statement quantifies over concurrent calls with distinct keys)
 	var foreignKey bitcoin.Hash32
 	foreignKey[3] = 0xf0
-	foreign := &request{typ: c16Kinds[verifrt.Choose("foreign.kind", len(c16Kinds))], hash: foreignKey, height: 5000000, id: 777, response: foreignCh}
+	foreign := &request{typ: c16Kinds[verifrt.Choose("foreign.kind", len(c16Kinds))], hash: foreignKey, id: 777, response: foreignCh}
+	switch foreign.typ {
+	case MessageTypeGetHeaders:
+		// registered exactly as GetHeaders registers it: keyed by height, hash left zero
+		foreign.hash = bitcoin.Hash32{}
+		foreign.height = 5000000
+	case MessageTypeSaveTxs, MessageTypeGetFeeQuotes:
+		foreign.hash = bitcoin.Hash32{} // these calls register no key
+	}
 	c.requests = append(c.requests, foreign)
 
 	kind := verifrt.Choose("call", 7)
